@@ -1,4 +1,5 @@
 import ScriggoV.Lemmas.Files
+import ScriggoV.Gen.FilesWrites
 /-! C23 — the in-memory `Files` type is a well-behaved `io/fs` file system (`files.go`).
 Property theorems only; helper lemmas are in `Lemmas/Files.lean`.
 
@@ -607,6 +608,230 @@ theorem run_read_after_close (s : State) (i : Nat) (h : Handle) (hi : s.handles[
   simp only [step, hi']
   simp [File.read, hc']
 
+/-! ### Stat is a value: a function of the file system and the name only -/
+
+/-- the fields the methods of `filesFileInfo` read (`name`, `data`, `mode`); `Stat` returns the
+handle's own struct under that type, so these are what a `FileInfo` *is* -/
+def File.core (f : File) : Bytes × Bytes × Bool := (f.name, f.data, f.mode)
+
+theorem info_of_core (f g : File) (h : f.core = g.core) : f.info = g.info := by
+  simp only [File.core, Prod.mk.injEq] at h
+  simp [File.info, h.1, h.2.1, h.2.2]
+
+/-- `Read` writes `offset` only -/
+theorem read_core (f : File) (k : Nat) : (f.read k).1.core = f.core := by
+  unfold File.read
+  split
+  · rfl
+  · split <;> rfl
+
+/-- `Close` writes `offset` only -/
+theorem close_core (f : File) : f.close.core = f.core := rfl
+
+theorem setF_f (h : Handle) (f : File) : (h.setF f).f = f := by cases h <;> rfl
+
+/-- what `fs.Stat(fsys, name)` answers: `Open` a fresh handle and `Stat` it -/
+def statOf (fs : FS) (name : Bytes) : Option Info := (fsOpen fs name).map (·.f.info)
+
+/-- a handle whose `name`/`data`/`mode` are those of a fresh `Open` of its name -/
+def Faithful (fs : FS) (h : Handle) : Prop :=
+  ∃ h0, fsOpen fs h.f.name = some h0 ∧ h0.f.core = h.f.core
+
+def AllFaithful (s : State) : Prop :=
+  ∀ (i : Nat) (h : Handle), s.handles[i]? = some h → Faithful s.fs h
+
+theorem step_fs (s : State) (op : Op) : (step s op).1.fs = s.fs := by
+  cases op <;> simp only [step] <;> split <;> rfl
+
+/-- every operation leaves `name`/`data`/`mode` of every handle of the table alone -/
+theorem step_core (s : State) (op : Op) (i : Nat) (h : Handle) (hi : s.handles[i]? = some h) :
+    ∃ h', (step s op).1.handles[i]? = some h' ∧ h'.f.core = h.f.core := by
+  have hlt : i < s.handles.length := by
+    rcases Nat.lt_or_ge i s.handles.length with h' | h'
+    · exact h'
+    · rw [List.getElem?_eq_none h'] at hi; cases hi
+  cases op with
+  | «open» name =>
+    simp only [step]
+    cases fsOpen s.fs name with
+    | none => exact ⟨h, hi, rfl⟩
+    | some g => exact ⟨h, by simp only [List.getElem?_append_left hlt, hi], rfl⟩
+  | readDir j n =>
+    simp only [step]
+    rcases hj : s.handles[j]? with _ | (g | ⟨g, off⟩)
+    · exact ⟨h, hi, rfl⟩
+    · exact ⟨h, hi, rfl⟩
+    · simp only [List.getElem?_set]
+      by_cases hji : j = i
+      · subst hji
+        rw [hi] at hj; cases hj
+        exact ⟨.dir g (readDir s.fs g off n).1, by simp [hlt], rfl⟩
+      · exact ⟨h, by simp [hji, hi], rfl⟩
+  | stat j =>
+    simp only [step]
+    cases s.handles[j]? <;> exact ⟨h, hi, rfl⟩
+  | read j k =>
+    simp only [step]
+    rcases hj : s.handles[j]? with _ | g
+    · exact ⟨h, hi, rfl⟩
+    · simp only [List.getElem?_set]
+      by_cases hji : j = i
+      · subst hji
+        rw [hi] at hj; cases hj
+        exact ⟨h.setF (h.f.read k).1, by simp [hlt], by rw [setF_f, read_core]⟩
+      · exact ⟨h, by simp [hji, hi], rfl⟩
+  | close j =>
+    simp only [step]
+    rcases hj : s.handles[j]? with _ | g
+    · exact ⟨h, hi, rfl⟩
+    · simp only [List.getElem?_set]
+      by_cases hji : j = i
+      · subst hji
+        rw [hi] at hj; cases hj
+        exact ⟨h.setF h.f.close, by simp [hlt], by rw [setF_f, close_core]⟩
+      · exact ⟨h, by simp [hji, hi], rfl⟩
+
+/-- a handle of the table after an operation was there before, or is the one just opened -/
+theorem step_origin (s : State) (op : Op) (i : Nat) (h' : Handle)
+    (hi : (step s op).1.handles[i]? = some h') :
+    (∃ h, s.handles[i]? = some h) ∨ (∃ name, fsOpen s.fs name = some h') := by
+  rcases hs : s.handles[i]? with _ | h
+  · right
+    have hge : s.handles.length ≤ i := by
+      rcases Nat.lt_or_ge i s.handles.length with h | h
+      · rw [List.getElem?_eq_getElem h] at hs; cases hs
+      · exact h
+    cases op with
+    | «open» name =>
+      simp only [step] at hi
+      cases ho : fsOpen s.fs name with
+      | none => rw [ho] at hi; simp only at hi; rw [hs] at hi; cases hi
+      | some g =>
+        rw [ho] at hi
+        simp only at hi
+        rw [List.getElem?_append_right hge] at hi
+        rcases hk : i - s.handles.length with _ | k
+        · rw [hk] at hi; simp at hi; subst hi; exact ⟨name, ho⟩
+        · rw [hk] at hi; simp at hi
+    | readDir j n =>
+      simp only [step] at hi
+      split at hi
+      · rw [hs] at hi; cases hi
+      · rw [hs] at hi; cases hi
+      · simp only [List.getElem?_set] at hi
+        split at hi
+        · split at hi
+          · omega
+          · cases hi
+        · rw [hs] at hi; cases hi
+    | stat j =>
+      simp only [step] at hi
+      split at hi <;> (rw [hs] at hi; cases hi)
+    | read j k =>
+      simp only [step] at hi
+      split at hi
+      · rw [hs] at hi; cases hi
+      · simp only [List.getElem?_set] at hi
+        split at hi
+        · split at hi
+          · omega
+          · cases hi
+        · rw [hs] at hi; cases hi
+    | close j =>
+      simp only [step] at hi
+      split at hi
+      · rw [hs] at hi; cases hi
+      · simp only [List.getElem?_set] at hi
+        split at hi
+        · split at hi
+          · omega
+          · cases hi
+        · rw [hs] at hi; cases hi
+  · exact Or.inl ⟨h, rfl⟩
+
+theorem step_allFaithful (s : State) (op : Op) (hs : AllFaithful s) : AllFaithful (step s op).1 := by
+  intro i h' hi
+  rw [step_fs]
+  rcases step_origin s op i h' hi with ⟨h, hh⟩ | ⟨name, ho⟩
+  · obtain ⟨h'', hi'', hc⟩ := step_core s op i h hh
+    rw [hi''] at hi; cases hi
+    obtain ⟨h0, ho, hc0⟩ := hs i h hh
+    have hn : h'.f.name = h.f.name := congrArg Prod.fst hc
+    exact ⟨h0, by rw [hn]; exact ho, hc0.trans hc.symm⟩
+  · have hn : h'.f.name = name := (open_only s.fs name h' ho).2.1
+    exact ⟨h', by rw [hn]; exact ho, rfl⟩
+
+theorem run_fs (ops : List Op) (s : State) : (run s ops).1.fs = s.fs := by
+  induction ops generalizing s with
+  | nil => rfl
+  | cons op ops ih => simp only [run]; rw [ih, step_fs]
+
+theorem run_allFaithful (ops : List Op) (s : State) (hs : AllFaithful s) : AllFaithful (run s ops).1 := by
+  induction ops generalizing s with
+  | nil => exact hs
+  | cons op ops ih => exact ih _ (step_allFaithful s op hs)
+
+theorem run_core (ops : List Op) (s : State) (i : Nat) (h : Handle) (hi : s.handles[i]? = some h) :
+    ∃ h', (run s ops).1.handles[i]? = some h' ∧ h'.f.core = h.f.core := by
+  induction ops generalizing s h with
+  | nil => exact ⟨h, hi, rfl⟩
+  | cons op ops ih =>
+    obtain ⟨h1, hi1, hc1⟩ := step_core s op i h hi
+    obtain ⟨h2, hi2, hc2⟩ := ih (step s op).1 h1 hi1
+    exact ⟨h2, hi2, hc2.trans hc1⟩
+
+/-- **Stat is independent of the handle's state**: after any sequence of Open / ReadDir(n) / Stat /
+Read(k) / Close operations on any handles, `Stat` of any handle of the table (read from, paged,
+closed or not) answers exactly what `fs.Stat(fsys, name)` answers on a fresh handle of the same
+name: the `FileInfo` is a function of the file system and the name only. -/
+theorem stat_independent_of_handle_state (fs : FS) (ops : List Op) (i : Nat) (h : Handle)
+    (hi : (run { fs := fs, handles := [] } ops).1.handles[i]? = some h) :
+    (step (run { fs := fs, handles := [] } ops).1 (.stat i)).2 = .info h.f.info ∧
+    statOf fs h.f.name = some h.f.info := by
+  constructor
+  · simp only [step, hi]
+  · have hf : AllFaithful (run { fs := fs, handles := [] } ops).1 :=
+      run_allFaithful ops _ (by intro i h hi; simp at hi)
+    obtain ⟨h0, ho, hc⟩ := hf i h hi
+    rw [run_fs] at ho
+    simp only [statOf, ho, Option.map_some, info_of_core _ _ hc]
+
+/-- **a Stat answer does not change with time**: whatever is done between two `Stat` calls on a
+handle (on this or on any other handle), both answer the same -/
+theorem stat_stable (s : State) (ops : List Op) (i : Nat) (h : Handle) (hi : s.handles[i]? = some h) :
+    (step (run s ops).1 (.stat i)).2 = (step s (.stat i)).2 := by
+  obtain ⟨h', hi', hc⟩ := run_core ops s i h hi
+  simp only [step, hi, hi', info_of_core _ _ hc]
+
+/-- **no method of files.go writes a field a FileInfo reads** (the table is regenerated from
+files.go on every check): `Stat` returns the handle's own struct as `*filesFileInfo`, so this is
+exactly the condition under which its answer is a value (`read_core`, `close_core` in the model) -/
+theorem info_fields_never_written :
+    ∀ m ∈ Gen.FilesWrites.writes, ∀ f ∈ m.2, f ∉ Gen.FilesWrites.infoReads := by decide
+
+/-- the writes of the code are the ones the model's `step` performs (`Read`, `Close`: `offset`;
+`ReadDir`: `n`), the info methods read `name`/`data`/`mode` (`File.core`), and the only address
+taken is the entry's own embedded info in `filesDirEntry.Info` -/
+theorem writes_as_modelled :
+    Gen.FilesWrites.writes.filter (fun m => !m.2.isEmpty)
+      = [("filesDir.ReadDir", ["n"]), ("filesFile.Close", ["offset"]), ("filesFile.Read", ["offset"])] ∧
+    Gen.FilesWrites.infoReads = ["data", "mode", "name"] ∧
+    Gen.FilesWrites.exposes = [("filesDirEntry.Info", ["filesFileInfo"])] := by decide
+
+/-- a `Read` that consumes the content slice (`f.data = f.data[n:]`) instead of indexing it by the
+offset returns the same bytes but is not `read_core`: the aliasing `Stat` then shrinks -/
+def File.readConsuming (f : File) (k : Nat) : File × ReadRes :=
+  if f.offset < 0 then (f, .invalid)
+  else if f.data.length = 0 then (f, .eof)
+  else
+    let b := f.data.take k
+    ({ f with data := f.data.drop b.length, offset := f.offset + b.length }, .data b)
+
+theorem consuming_read_violates :
+    let f : File := { name := [97], data := [120, 121, 122], offset := 0, mode := false }
+    (f.readConsuming 1).2 = (f.read 1).2 ∧ (f.readConsuming 1).1.info ≠ f.info := by
+  decide
+
 /-! ### non-vacuity: a concrete valid map, its listing, paging, and the defect found -/
 
 /-- `{"d/e/c.txt": "", "a.txt": "x", "d/b.txt": "yy"}` -/
@@ -629,6 +854,15 @@ example : ((run { fs := exFS, handles := [] }
     [.open [dot], .readDir 0 1, .readDir 0 1, .readDir 0 1, .readDir 0 (-1)]).2.map
       fun o => match o with | .entries l => some l.length | .eof => none | _ => some 99)
     = [some 99, some 1, some 1, none, some 0] := by decide
+
+-- Stat of a handle that was read from, then closed, equals Stat of a second, fresh handle
+example : ((run { fs := exFS, handles := [] }
+    [.open [97, 46, 116, 120, 116], .stat 0, .read 0 1, .stat 0, .close 0, .stat 0,
+     .open [97, 46, 116, 120, 116], .stat 1]).2.filterMap
+      fun o => match o with | .info i => some i.size | _ => none)
+    = [1, 1, 1, 1] := by decide
+example : statOf exFS [97, 46, 116, 120, 116]
+    = some { name := [97, 46, 116, 120, 116], size := 1, mode := false, isDir := false } := by decide
 
 /-- `ReadDir` as it was before the fix (DESIGN §8 row 7): every entry `filesFileInfo{name}`, and
 `n ≤ 0` ignores the offset -/
